@@ -70,6 +70,52 @@ theorem index_draw_range_uniformAffine (low high : ℤ) (u : ℝ) (hlh : low < h
     low ≤ ⌊uniformAffine (low : ℝ) (high : ℝ) u⌋ ∧ ⌊uniformAffine (low : ℝ) (high : ℝ) u⌋ ≤ high - 1 := by
   rw [uniformAffine_real]; exact index_draw_range low high u hlh hu0 hu1
 
+/-! ### the primitives as functions of the draw: direction, end point, degenerate ranges -/
+
+/-- the smallest unit draw gives `low` exactly -/
+theorem uniformAffine_zero (low high : ℝ) : uniformAffine low high 0 = low := by
+  rw [uniformAffine_real]; ring
+
+/-- a degenerate range `low = high` gives `low` whatever the draw (the `[low, high)` contract is empty there) -/
+theorem uniformAffine_degenerate (low u : ℝ) : uniformAffine low low u = low := by
+  rw [uniformAffine_real]; ring
+
+/-- for `low ≤ high` the result is non-decreasing in the unit draw (a fixed stream gives coupled samples) -/
+theorem uniformAffine_mono (low high u u' : ℝ) (hlh : low ≤ high) (hu : u ≤ u') :
+    uniformAffine low high u ≤ uniformAffine low high u' := by
+  rw [uniformAffine_real, uniformAffine_real]
+  have := mul_le_mul_of_nonneg_left hu (sub_nonneg.mpr hlh)
+  linarith
+
+/-- for a fixed draw the result moves with the bounds: widening the range upwards never lowers the sample -/
+theorem uniformAffine_mono_high (low high high' u : ℝ) (hh : high ≤ high') (hu0 : 0 ≤ u) :
+    uniformAffine low high u ≤ uniformAffine low high' u := by
+  rw [uniformAffine_real, uniformAffine_real]
+  have := mul_le_mul_of_nonneg_right (sub_le_sub_right hh low) hu0
+  linarith
+
+/-- the closed interval version that holds for `low ≤ high` and `u ∈ [0, 1]` (what the callers rely on when they
+    draw positions between bounds that may coincide) -/
+theorem uniformAffine_mem_closed (low high u : ℝ) (hlh : low ≤ high) (hu0 : 0 ≤ u) (hu1 : u ≤ 1) :
+    low ≤ uniformAffine low high u ∧ uniformAffine low high u ≤ high := by
+  rw [uniformAffine_real]
+  have hd : 0 ≤ high - low := sub_nonneg.mpr hlh
+  constructor
+  · have := mul_nonneg hd hu0; linarith
+  · have := mul_le_mul_of_nonneg_left hu1 hd; linarith
+
+/-- the standard draw `0` gives the mean; deviation `0` gives the mean whatever the draw -/
+theorem normalAffine_centre (mu sd z : ℝ) : normalAffine mu sd 0 = mu ∧ normalAffine mu 0 z = mu := by
+  rw [normalAffine_real, normalAffine_real]; constructor <;> ring
+
+/-- shifting the mean shifts the sample; for `sd ≥ 0` the sample is non-decreasing in the standard draw -/
+theorem normalAffine_shift_mono (mu sd z z' c : ℝ) (hsd : 0 ≤ sd) (hz : z ≤ z') :
+    normalAffine (mu + c) sd z = normalAffine mu sd z + c ∧ normalAffine mu sd z ≤ normalAffine mu sd z' := by
+  rw [normalAffine_real, normalAffine_real, normalAffine_real]
+  refine ⟨by ring, ?_⟩
+  have := mul_le_mul_of_nonneg_left hz hsd
+  linarith
+
 /-! satisfiability of the hypotheses, on concrete numbers -/
 
 example : (-5 : ℝ) < 5 ∧ (0 : ℝ) ≤ 0.25 ∧ (0.25 : ℝ) < 1 := by norm_num
@@ -88,5 +134,12 @@ example : ⌊((0 : ℤ) : ℝ) + (((10 : ℤ) : ℝ) - ((0 : ℤ) : ℝ)) * 0.99
 #print axioms levyStep_defined
 #print axioms index_draw_range
 #print axioms index_draw_range_uniformAffine
+#print axioms uniformAffine_zero
+#print axioms uniformAffine_degenerate
+#print axioms uniformAffine_mono
+#print axioms uniformAffine_mono_high
+#print axioms uniformAffine_mem_closed
+#print axioms normalAffine_centre
+#print axioms normalAffine_shift_mono
 
 end Opy
